@@ -38,6 +38,10 @@ def cases_for(prop, tier):
         yield {'stack': 'find', 'k': 2, 'style': 'fresh', 'maxlen': 16384, 'err': True, 'sop': FIND}
         yield {'stack': 'find', 'k': 2, 'style': 'fresh', 'maxlen': 16384, 'err': False, 'sop': MWL}
         yield {'stack': 'find', 'k': 2, 'style': 'fresh', 'maxlen': 16384, 'err': False, 'sop': FIND, 'wrapper': True}
+        STUDY = '1.2.840.10008.5.1.4.1.2.2.1'
+        for roots in ([(FIND, 'SCU'), (STUDY, 'SCU')], [(STUDY, 'SCU'), (None, 'SCU')], [(None, 'SCU'), (STUDY, 'OTHER'), (FIND, 'OTHER')]):
+            yield {'stack': 'find', 'k': 2, 'style': 'fresh', 'maxlen': 16384, 'err': False, 'sop': FIND, 'wrapper': True, 'roots': roots,
+                   'count_all': True}
     elif prop == 'C19':
         vecs = ['', 's', 'f', 'ss', 'sw', 'fs', 'sws', 'ssf'] + (['ssss', 'wfsw'] if thorough else [])
         for v in vecs:
@@ -104,8 +108,16 @@ def make(case):
             if case.get('wrapper'):
                 def run():
                     try:
-                        got = list(pynetdicom2.c_find(remote, 'SCU', query, root=case['sop']))
-                        results['find'] = [(None if d is None else dsgen.enc(d, IMPL), int(s)) for d, s in got]
+                        # 'roots': several calls of the convenience wrapper one after the other in one thread
+                        for n, (root, aet) in enumerate(case.get('roots') or [(case['sop'], 'SCU')]):
+                            results['calls'] = n + 1
+                            kw = {} if root is None else {'root': root}
+                            got = list(pynetdicom2.c_find(remote, aet, query, **kw))
+                            got = [(None if d is None else dsgen.enc(d, IMPL), int(s)) for d, s in got]
+                            if n and got != results['find']:
+                                results['find_differs'] = (n, _fmt_find(got))
+                            if not n:
+                                results['find'] = got
                         results['client'] = 'ok'
                     except exceptions.NetDICOMError as exc:
                         results['client'] = '%s: %s' % (type(exc).__name__, exc)
@@ -304,7 +316,8 @@ def judge(case, out):
             out.crashed[0][0], out.crashed[0][1], out.crashed[0][2][-300:], where)))
         return viol
     if r.get('client') != 'ok':
-        viol.append((sig + ':client-error', 'the requesting application got %r (%s)' % (r.get('client'), where)))
+        viol.append((sig + ':client-error', 'the requesting application got %r%s (%s)' % (
+            r.get('client'), ' in call %d of a sequence' % r['calls'] if r.get('calls', 1) > 1 else '', where)))
         return viol
     log = r['log']
     if kind == 'find':
@@ -325,8 +338,12 @@ def judge(case, out):
             viol.append((sig + ':final-after-error', 'handler signalled an error, final status is success (%s)' % where))
         elif not case['err'] and tail[0][1] != 0:
             viol.append((sig + ':final-status', 'final status %04X (%s)' % (tail[0][1], where)))
+        if r.get('find_differs'):
+            viol.append((sig + ':later-call-differs', 'call %d of the wrapper returned %r, the first call %r (%s)' % (
+                r['find_differs'][0] + 1, r['find_differs'][1], _fmt_find(got), where)))
         q = [x for x in log if x[0] == 'query']
-        if len(q) != 1 or q[0][1] != r['query']:
+        ncalls = len(case.get('roots') or [1])
+        if len(q) != ncalls or any(x[1] != r['query'] for x in q):
             viol.append((sig + ':query', 'handler saw %d queries / a different query (%s)' % (len(q), where)))
     elif kind == 'move':
         vec = case['vec']
@@ -448,7 +465,7 @@ def extend(rep, prop, tier, seed, module):
         c = dict(c)
         c['bound'] = 2 if tier == 'thorough' else 1
         c['dev'] = 1 if tier == 'thorough' else 0
-        if c['stack'] != 'find':
+        if c['stack'] != 'find' or c.get('count_all'):
             # three associations, or long two-way traffic on one: the free switches alone explode - bound every deviation from the default order
             c['count_all'] = True
             c['bound'] = 2 if tier == 'thorough' else 1
